@@ -28,7 +28,7 @@ def main(argv):
     for _ in range(N):
         k, v = gen.rvalue(rng)
         x = gen.enc_rvalue(rng, k, v)
-        s = gen.rbytes(rng, rng.choice([1, 1, 2, 3, 8, 40]))
+        s = rng.choice([gen.rbytes(rng, rng.choice([1, 1, 2, 3, 8, 40])), bytes(rng.choice([1, 4, 64])), b"\xff\xff", b"\x00\x00"])
         cmd = rng.choice(["value", TYPED.get(k, "value")])
         if k in ("nso", "nsi", "eomv"):
             cmd = "value"
@@ -59,7 +59,9 @@ def main(argv):
             usm = ber.usm_params(gen.rbytes(rng, 9, False), 3, 4, b"user", bytes(rng.choice([0, 12])), bytes(rng.choice([0, 8])))
             data = ber.scoped_pdu(b"\x01\x02", b"", p) if rng.random() < 0.7 else ber.tlv(4, gen.rbytes(rng, 16, False))
             x = ber.msg_v3(rng.randrange(2 ** 31), rng.randrange(8), usm, data)
-        s = gen.rbytes(rng, rng.randint(1, 4))
+        # what follows the message: arbitrary octets, and the kinds a lenient decoder is tempted to let through
+        # (padding of zero octets, 0xff, an end-of-contents pair, white space, a second copy of the message)
+        s = rng.choice([gen.rbytes(rng, rng.randint(1, 4)), bytes(rng.choice([1, 2, 4, 64])), b"\xff" * rng.choice([1, 3]), b"\x00\x00", b"\n", b" ", b"\x05\x00", x])
         base.append("%s %s" % (which, x.hex()))
         ext.append("%s %s" % (which, (x + s).hex()))
         meta.append(("top", s))
